@@ -1452,7 +1452,7 @@ def r3(ctx):
     rels = list(dict.fromkeys(codec + [LEGACY, MSGSER, PACK]))
     sites = tzlint.tz_sites(repo, rels)
     in_llsd = [s for s in sites if (s[0].module.rel if s[0] is not None else "") in codec]
-    ctx.floor("C12.R3", "date conversion sites in the LLSD codec modules", len(in_llsd), 3)
+    ctx.floor("C12.R3", "date conversion sites in the LLSD codec modules", len(in_llsd), 2)
     counts: Dict[str, int] = {}
     for fi, node, kind, ok, msg in sites:
         key = tzlint.site_key(fi, node, kind)
@@ -1762,6 +1762,18 @@ def r6(ctx):
                        "" if not collapsed or hs == h_ else
                        f"{t_} (handler {h_}) is a subclass of the listed {first} and is reported as that type (handler {hs}): the value is "
                        f"written as the wrong LLSD type")
+    # bytes subclasses of datatypes.py (what the UDP deserializer hands out) are LLSD binary: the XML formatter has no
+    # fallback for an unregistered exact type, the notation formatter would write an array of integers
+    dmod = repo.module("hippolyzer/lib/base/datatypes.py")
+    bsubs = [c for lst_ in repo.classes.values() for c in lst_ if c.module is dmod
+             and any(b.split("[")[0].split(".")[-1] == "bytes" for k in repo.mro(c) for b in k.base_names)]
+    ctx.floor("C12.R6", "bytes subclasses in datatypes.py", len(bsubs), 2)
+    for c in bsubs:
+        keys = [k for k in registered if repo.resolve_class(k, lmod) == c]
+        ok = bool(keys) and all(registered[k].split(".")[-1] == "BINARY" for k in keys)
+        ctx.ob("C12.R6", f"{c.name} (bytes subclass) is registered in HippoLLSDBaseFormatter.type_map as BINARY", ok,
+               ctx.w(init, init.node), f"registered: {sorted(registered)}; format_xml raises 'Cannot serialize unknown type' for a "
+               f"{c.name} (e.g. TeleportFinish.Info.SeedCapability parsed off the wire) and format_notation writes an array of integers")
     tc = repo.cls("TupleCoord", "hippolyzer/lib/base/datatypes.py")
     subs = [c for c in repo.subclasses(tc, strict=True) if c.module is tc.module]
     ctx.floor("C12.R6", "coordinate classes", len(subs), 4)
@@ -1947,11 +1959,97 @@ def r9(ctx):
            "'...+00:00Z', which their own parsers reject: a date read from binary LLSD cannot be re-written as XML / notation")
 
 
+def r9_formatters(ctx):
+    """The same clause seen from the formatter: a tz-aware datetime handed to format_xml / format_notation must be turned
+    into naive UTC before the third-party DATE handler (isoformat() + 'Z') sees it."""
+    repo = ctx.repo
+    fci = repo.cls("HippoLLSDBaseFormatter", LLSD)
+    lmod = fci.module
+    cands: List[FuncInfo] = []
+    init = repo.lookup_method(fci, "__init__")
+    for st in stores(init.node, into_defs=False) if init is not None else []:
+        if st.kind == "setitem" and st.path == "self.type_map" and isinstance(st.target, ast.Subscript) and \
+                (ap(st.target.slice) or "").endswith("datetime.datetime") and (ap(st.value) or "").startswith("self."):
+            m = repo.lookup_method(fci, ap(st.value)[5:])
+            if m is not None:
+                cands.append(m)
+    fmts = repo.subclasses(fci, strict=True)
+    date_overrides = [repo.lookup_method(c, "DATE") for c in fmts]
+    if fmts and all(m is not None for m in date_overrides):
+        cands.extend(date_overrides)
+
+    def normalises(m: FuncInfo) -> bool:
+        for c in calls(m.node):
+            if call_attr(c) == "replace" and any(k.arg == "tzinfo" and isinstance(k.value, ast.Constant) and k.value.value is None
+                                                  for k in c.keywords):
+                return True
+            if call_attr(c) in ("utctimetuple", "timegm"):
+                return True
+        return False
+    ok = bool(cands) and all(normalises(m) for m in cands)
+    ctx.ob("C12.R9", "Hippo formatters turn tz-aware datetimes into naive UTC before the date is written", ok, ctx.w(lmod, fci.node),
+           "no handler between type_map[datetime.datetime] and the third-party DATE strips the tzinfo: "
+           "format_notation(datetime.now(timezone.utc)) writes '...+00:00Z', which every LLSD parser rejects")
+
+
+def r10(ctx):
+    """XML end-of-line handling: a parser turns a literal CR / CRLF into LF, only a character reference survives."""
+    repo = ctx.repo
+    ctx.rule("C12.R10", "the Hippo XML formatters write a carriage return as a character reference (xml_esc override replacing "
+                        "b'\\r'), since XML parsers normalise a literal CR to LF")
+    fci = repo.cls("HippoLLSDBaseFormatter", LLSD)
+    lmod = fci.module
+    n = 0
+    for c in repo.subclasses(fci, strict=True):
+        if not any("serde_xml" in b or "XMLFormatter" in b or "XMLPrettyFormatter" in b for b in c.base_names):
+            continue
+        n += 1
+        m = repo.lookup_method(c, "xml_esc")
+        ok = False
+        if m is not None:
+            for rt in [x.value for x in walk(m.node) if isinstance(x, ast.Return) and x.value is not None]:
+                cur, repl = rt, []
+                while isinstance(cur, ast.Call) and isinstance(cur.func, ast.Attribute) and cur.func.attr == "replace":
+                    repl.append(cur)
+                    cur = cur.func.value
+                base_ok = isinstance(cur, ast.Call) and isinstance(cur.func, ast.Attribute) and cur.func.attr == "xml_esc" and \
+                    isinstance(cur.func.value, ast.Call) and ap(cur.func.value.func) == "super"
+                cr = [r_ for r_ in repl if len(r_.args) == 2 and isinstance(r_.args[0], ast.Constant) and r_.args[0].value in (b"\r", "\r")
+                      and isinstance(r_.args[1], ast.Constant) and isinstance(r_.args[1].value, type(r_.args[0].value))
+                      and r_.args[0].value not in r_.args[1].value]
+                ok = base_ok and bool(cr)
+        ctx.ob("C12.R10", f"{c.name}: carriage returns are written as a character reference", ok, ctx.w(lmod, c.node),
+               "the inherited xml_esc writes U+000D raw: 'a\\r\\nb' in a message string comes back as 'a\\nb' through the XML form "
+               "(the dict form keeps it)")
+    ctx.floor("C12.R10", "Hippo XML formatter classes", n, 2)
+
+
+def r11(ctx):
+    """Dates carry microseconds: the text forms are exact, the parser must be too."""
+    repo = ctx.repo
+    ctx.rule("C12.R11", "notation / XML date parsing keeps the microsecond field exact (no int(float * 1e6) truncation on the "
+                        "path hippolyzer's parse_notation / parse_xml use)")
+    tp = ThirdParty()
+    r_ = tp.lookup("llsd.base", "_parse_datestr")
+    ctx.require(r_ is not None and r_[0] == "func", "third-party llsd.base._parse_datestr not found")
+    trunc = [c for c in ast.walk(r_[2]) if isinstance(c, ast.Call) and ap(c.func) == "int" and c.args
+             and isinstance(c.args[0], ast.BinOp) and isinstance(c.args[0].op, ast.Mult)
+             and any(isinstance(x, ast.Call) and ap(x.func) == "float" for x in ast.walk(c.args[0]))]
+    for name in ("parse_notation", "parse_xml"):
+        f = repo.fn(name, LLSD)
+        delegates = any((ap(c.func) or "").split(".")[0] in {k for k, v in f.module.imports.items() if v == "llsd" or v.startswith("llsd.")}
+                        for c in calls(f.node))
+        ctx.ob("C12.R11", f"{name}: dates keep their microseconds", not (trunc and delegates), f.where,
+               "delegates to the third-party parser, whose _parse_datestr computes int(float('0.000249') * 1e6) = 248: "
+               "datetime(2020, 1, 1, 0, 0, 0, 249) comes back one microsecond early (11549 of the 10^6 microsecond values), "
+               "while the binary form is exact")
+
+
 def run(ctx):
     # when re-run as a dependency clause of another property only the requested rules are evaluated (an analysis
     # error of a rule the dependent property does not need must not become its analysis error)
     wanted = getattr(ctx, "_rules", None) if getattr(ctx, "_dep", None) == "C12" else None
-    for name, fn in (("R1", r1), ("R2", r2), ("R3", r3), ("R4", r4), ("R5", r5), ("R6", r6), ("R7", r7), ("R8", r8), ("R9", r9)):
+    for name, fn in (("R1", r1), ("R2", r2), ("R3", r3), ("R4", r4), ("R5", r5), ("R6", r6), ("R7", r7), ("R8", r8), ("R9", r9), ("R9", r9_formatters), ("R10", r10), ("R11", r11)):
         if wanted is None or name in wanted:
             fn(ctx)
     ctx.assume("third-party llsd package sources under /venv/lib/python3.12/site-packages/llsd are parsed, never imported; "
